@@ -328,6 +328,67 @@ def r00(ctx, repo, files=None):
                                 'in place in every iteration: all collected '
                                 'entries are one object and carry the last '
                                 'iteration\'s values' % (U(c)[:50], v))
+        # L10: log of a product over an array under/overflows for long or
+        # badly scaled series where the sum of the logs does not
+        for c in ast.walk(fn):
+            if isinstance(c, ast.Call) and U(c.func) in (
+                    'np.log', 'math.log') and c.args and isinstance(
+                    c.args[0], ast.Call) and U(c.args[0].func) in (
+                    'np.prod', 'np.product'):
+                bad += 1
+                ctx.violation(
+                    rule, repo.loc(c, cls, fn.name), construct,
+                    'L10 log of product',
+                    '`%s` takes the logarithm of a product over an array: '
+                    'the product under- or overflows for long or badly '
+                    'scaled series (the result becomes +-inf) where the sum '
+                    'of the logarithms stays finite' % U(c)[:60])
+        # L11: a transposition that is decided by comparing one axis length
+        # with an unrelated length is ambiguous when the two coincide
+        for st in ast.walk(fn):
+            if not isinstance(st, ast.If):
+                continue
+            shp = [x for x in ast.walk(st.test) if isinstance(x, ast.Subscript)
+                   and isinstance(x.value, ast.Attribute)
+                   and x.value.attr == 'shape' and isinstance(
+                       x.value.value, ast.Name)]
+            eqs = [x for x in ast.walk(st.test) if isinstance(x, ast.Compare)
+                   and isinstance(x.ops[0], ast.Eq)]
+            if not shp or not eqs:
+                continue
+            arr = shp[0].value.value.id
+            for a in st.body:
+                if isinstance(a, ast.Assign) and U(a.targets[0]) == arr and (
+                        U(a.value) in ('%s.T' % arr,
+                                       'np.transpose(%s)' % arr,
+                                       '%s.transpose()' % arr)
+                        or (isinstance(a.value, ast.Call) and U(
+                            a.value.func) == 'np.swapaxes')):
+                    bad += 1
+                    ctx.violation(
+                        rule, repo.loc(st, cls, fn.name), construct,
+                        'L11 shape-guessed transpose %s' % arr,
+                        '`%s` is transposed when `%s` holds: the layout of '
+                        'the caller\'s array is guessed from a coincidence '
+                        'of axis lengths, so a correctly laid-out array '
+                        'whose two axes happen to have equal length is '
+                        'transposed as well' % (arr, U(st.test)[:60]))
+        # L12: np.squeeze without axis turns a length-1 input into a 0-d
+        # array (len() and indexing then fail)
+        pset = {a.arg for a in fn.args.args + fn.args.kwonlyargs}
+        for c in ast.walk(fn):
+            if isinstance(c, ast.Call) and U(c.func) in (
+                    'np.squeeze', 'numpy.squeeze') and len(c.args) == 1 \
+                    and not c.keywords and isinstance(c.args[0], ast.Name) \
+                    and c.args[0].id in pset:
+                bad += 1
+                ctx.violation(
+                    rule, repo.loc(c, cls, fn.name), construct,
+                    'L12 squeeze of an argument %s' % c.args[0].id,
+                    '`%s` removes *every* axis of length one from the '
+                    'caller\'s array: an input with a single entry becomes '
+                    '0-dimensional and the following len() / indexing '
+                    'raises' % U(c)[:50])
         # L5: a function that takes `axis` hands it to every reduction over
         # its array argument (a reduction without it collapses all axes)
         pnames = [a.arg for a in fn.args.args + fn.args.kwonlyargs]
